@@ -58,7 +58,8 @@ Print Assumptions C04_error_location.
    source was read from one physical line i+1 of the source and is located there: keyword lines and rows at
    column indent+1 of that line, where the line's trimmed text starts with the reported keyword (followed by ':'
    for titles) and the reported name / step text is the trimmed rest; a tag at the column `line_tags` reports for
-   it (C04_tags: the '@'); a row's cells at the columns `table_cells` reports (C04_cells) *)
+   it (C04_tags: the '@'); a row's cells at the columns `table_cells` reports (C04_cells); a doc string at its
+   opening delimiter (column indent+1, the line starts with the delimiter, the media type is the trimmed rest) *)
 Theorem C04_ast_elements : forall stop m b src d m1 b1 n, wf_ms m -> parse_source stop m b src = POk d m1 b1 n ->
   Forall (fun e => exists i text, nth_error (py_lines src) i = Some text /\ elem_at (make_line text (S i)) (S i) e) (doc_elems d).
 Proof. exact ast_elements_located. Qed.
